@@ -126,15 +126,21 @@ static inline void flatten(std::vector<MfSet> const &sets, std::vector<R> &tab)
 static inline void gen_fuzzy(Tape &t, Ctx &cx, FuzzyCfg &f, bool zero_rules)
 {
     f.n = 2 + t.u8() % 6;
+    unsigned short_tab = 0;
     {
         uint8_t ob = t.u8();
         f.opr = ob % 7;
         f.opr_style = (ob / 7) % 4; // spare bits of the same byte
+        short_tab = ob / 28;
     }
     f.L = R(1 + t.u8() % 4);
     f.Lc = R(1 + t.u8() % 4);
     gen_partition(t, f.n, f.L, f.se);
     gen_partition(t, f.n, f.Lc, f.sec);
+    // a table with fewer sets than the order, closed by the A_MF_NUL entry (the walk over the table stops there): the last
+    // set(s) of a partition are left out - spare values of the operator byte
+    if (short_tab == 8 && f.se.size() > 1) { f.se.pop_back(); if (f.se.size() > 2) { f.se.pop_back(); } }
+    if (short_tab == 9 && f.sec.size() > 1) { f.sec.pop_back(); }
     flatten(f.se, f.me);
     flatten(f.sec, f.mec);
     f.kp.assign(size_t(f.n) * f.n, 0.0);
